@@ -371,6 +371,12 @@ class Gam(Val):
 
 def gamma(pred: Val, a: Val, b: Val) -> Val:
     if veq(a, b):
+        if isinstance(a, Num) and isinstance(b, Num) and getattr(a, 'dt', None) != getattr(b, 'dt', None):
+            # the same numbers, held in different element types depending on the test (a promotion applied to integer input only): the element
+            # type of the result is not one of the two tags
+            out = Num(a.r, a.length, a.kind)
+            out.dt = None
+            return out
         return a
     if isinstance(pred, Const):
         return a if pred.v else b
